@@ -756,9 +756,8 @@ def check_idioms(ctx: Ctx):
         ok = "carry,sum=_full_adder(carry,x[0],x[1])" in txt and "sums.append(sum)" in txt and len(init) == 1 and norm(init[0].value) == "False" and q.reversal_parity(lp[0].iter)[1] == 0
     ctx.check(ok, "RW-IDIOM", add, "ripple adder: carry-in false, carry threaded LSB to MSB, sums appended in order", "", "the carry chain of QintImp.add is broken (carry not threaded, wrong initial carry, or bits visited in another order)", add.node)
     sub = repo.func("types.qint.QintImp.sub")
-    txt = norm(sub.node).replace(" ", "")
-    ok = "an=cls.bitwise_not(cls.fill(tleft))" in txt and "su=cls.add(an,cls.fill(tright))" in txt and "returncls.bitwise_not(su)" in txt
-    ctx.check(ok, "RW-IDIOM", sub, "a - b = ~(~a + b)", "", "the subtraction identity changed", sub.node)
+    check_sub(ctx, sub)
+    check_shift_add(ctx, repo.func("types.qint.QintImp.mul_even_const"))
     bn = repo.func("types.qtype.Qtype.bitwise_not")
     ctx.check(norm(q.returns(bn)[0].value).replace(" ", "") == "(v[0],list(map(Not,v[1])))", "RW-IDIOM", bn, "bitwise not = Not on every bit, in order", "", "", bn.node)
     bg = repo.func("types.qint.QintImp.bitwise_generic")
@@ -766,6 +765,66 @@ def check_idioms(ctx: Ctx):
     for nm, op in (("bitwise_xor", "Xor"), ("bitwise_and", "And"), ("bitwise_or", "Or")):
         m = repo.func(f"types.qint.QintImp.{nm}")
         ctx.check(norm(q.returns(m)[0].value).replace(" ", "") == f"cls.bitwise_generic({op},tleft,tright)", "DP-OPS", m, f"{nm} -> {op}", "", f"{nm} applies another connective", m.node)
+
+
+def check_sub(ctx: Ctx, sub: FuncInfo):
+    """a - b = ~(~a + b); complement and zero-extension commute only if the extension comes first, so both
+    operands must be filled to a width chosen from BOTH of them before the minuend is complemented"""
+    a, b = sub.params[1], sub.params[2]
+    binds = {n.targets[0].id: n.value for n in walk_no_nested(sub.node) if isinstance(n, ast.Assign) and isinstance(n.targets[0], ast.Name)}
+    r = q.returns(sub)
+    ok = len(r) == 1 and isinstance(r[0].value, ast.Call) and norm(r[0].value.func).endswith("bitwise_not") and isinstance(r[0].value.args[0], ast.Name)
+    su = binds.get(r[0].value.args[0].id) if ok else None
+    ok = ok and isinstance(su, ast.Call) and norm(su.func).endswith(".add") and len(su.args) == 2 and isinstance(su.args[0], ast.Name)
+    an = binds.get(su.args[0].id) if ok else None
+    ok = ok and isinstance(an, ast.Call) and norm(an.func).endswith("bitwise_not")
+    ctx.check(bool(ok), "RW-IDIOM", sub, "a - b = ~(~a + b)", "", "the subtraction is no longer the complement of (complement of the minuend plus the subtrahend)", sub.node)
+    if not ok:
+        return
+    fa, fb = an.args[0], su.args[1]
+    good = (
+        isinstance(fa, ast.Call) and isinstance(fa.func, ast.Attribute) and fa.func.attr == "fill" and norm(fa.args[0]) == a
+        and isinstance(fb, ast.Call) and isinstance(fb.func, ast.Attribute) and fb.func.attr == "fill" and norm(fb.args[0]) == b
+    )
+    ctx.check(good, "RW-IDIOM", sub, "minuend and subtrahend enter in order, each filled first", f"{norm(fa)} / {norm(fb)}", f"operands enter as `{norm(fa)}` and `{norm(fb)}`", sub.node)
+    if not good:
+        return
+    ra, rb = norm(fa.func.value), norm(fb.func.value)
+    wide = binds.get(ra) if ra == rb and ra in binds else None
+    depends_on_both = wide is not None and isinstance(wide, ast.IfExp) and (b in q.names_in(wide)) and ("cls" in q.names_in(wide) or a in q.names_in(wide)) and any(k in norm(wide.test) for k in ("BIT_SIZE", "len("))
+    ctx.check(
+        depends_on_both, "SB-WIDEN", sub, "both operands are widened to the wider of the two before the complement",
+        f"{ra} = {norm(wide) if wide is not None else '?'}",
+        f"the minuend is filled with `{ra}` and the subtrahend with `{rb}`, which is not chosen from both operands' widths: when the subtrahend is wider, the minuend is complemented at its own width and zero-extended afterwards by the adder, so the high bits of ~a are 0 instead of 1 (Qint[2] - Qint[4] is wrong on every input)",
+        fa,
+    )
+
+
+def check_shift_add(ctx: Ctx, fi: FuncInfo):
+    """x * c for even c: c = 2**n + r with n = floor(log2 c); the product is (x << n) + x * r, so the second addend
+    must multiply by the whole remainder r (recursively, r is even too), not shift by some function of r"""
+    txt = norm(fi.node).replace(" ", "")
+    ok = "while2**n<=const:" in txt and "n+=1" in txt and "if2**n>const:" in txt and "n-=1" in txt and "r=const-2**n" in txt
+    ctx.check(ok, "SB-SHIFTADD", fi, "n = floor(log2 const), r = const - 2**n", "", "the leading power of two / remainder of the constant is no longer computed as n = floor(log2 c), r = c - 2**n", fi.node)
+    adds = [c for c in q.calls(fi.node) if isinstance(c.func, ast.Attribute) and c.func.attr == "add" and len(c.args) == 2]
+    if len(adds) != 1:
+        raise AnchorError(fi.short, "expected one add of the two partial products")
+    first, second = adds[0].args
+    binds = {n.targets[0].id: n.value for n in walk_no_nested(fi.node) if isinstance(n, ast.Assign) and isinstance(n.targets[0], ast.Name)}
+    shifted = binds.get("t_num_r")
+    ok1 = "t_num_r" in norm(first) and isinstance(shifted, ast.Call) and norm(shifted.func).endswith("shift_left") and norm(shifted.args[1]) == "n"
+    ctx.check(ok1, "SB-SHIFTADD", fi, "first addend is x << n", norm(first)[:50], f"first addend `{norm(first)}`", adds[0])
+    rec = isinstance(second, ast.Call) and norm(second.func).endswith("mul_even_const") and len(second.args) >= 2 and norm(second.args[1]) == "r" and norm(second.args[0]) == fi.params[0]
+    guard = any(pol and norm(e).replace(" ", "") == "r>0" for e, pol in guard_facts(fi, adds[0]))
+    if isinstance(second, ast.Call) and norm(second.func).endswith("shift_left"):
+        ctx.fail("SB-SHIFTADD", fi, "second addend is x * r", f"the second addend is `{norm(second)[:70]}`: a single shift multiplies by a power of two (here 2**({norm(second.args[1])})), which equals the remainder r only for r in {{2, 4}}: x * 6 = (x << 2) + (x << 1) works, x * 14 = (x << 3) + (x << 3) does not", adds[0])
+    else:
+        ctx.check(rec and guard, "SB-SHIFTADD", fi, "second addend is x * r (recursion on the even remainder, only when r > 0)", norm(second)[:60], f"second addend `{norm(second)[:70]}` under guard r > 0 = {guard}", adds[0])
+    # operand brought to the result width before shifting (the ripple adder has no carry-out)
+    fills = [n for n in walk_no_nested(fi.node) if isinstance(n, ast.Assign) and norm(n.targets[0]) == fi.params[0] and isinstance(n.value, ast.Call) and norm(n.value.func).endswith(".fill")]
+    idx_fill = fi.body.index(fills[0]) if fills and fills[0] in fi.body else None
+    idx_shift = next((i for i, st in enumerate(fi.body) if isinstance(st, ast.Assign) and norm(st.targets[0]) == "t_num_r"), None)
+    ctx.check(idx_fill is not None and idx_shift is not None and idx_fill < idx_shift and norm(fills[0].value.func.value) == fi.params[2], "SB-SHIFTADD", fi, "operand widened to the result type before the partial products are formed", "", "the partial products are formed at the operand's own width: the adder drops the carry out of the wider product", fi.node)
 
 
 def check_pipeline(ctx: Ctx):
